@@ -206,11 +206,20 @@ func (c *Ctx) inferModel(rule string) *inferModel {
 		c.roles["role:tag-parser"] = nil
 		for _, fi := range c.familyInstrs(fn) {
 			if call, ok := fi.I.(*ssa.Call); ok {
-				if callee := call.Call.StaticCallee(); callee != nil && c.P.InPkg(callee) && callee.Signature.Params().Len() == 1 && isNamed(callee.Signature.Params().At(0).Type(), "reflect", "StructField") {
+				if callee := call.Call.StaticCallee(); callee != nil && c.P.InPkg(callee) && callee.Signature.Params().Len() >= 1 && isNamed(callee.Signature.Params().At(0).Type(), "reflect", "StructField") {
 					// (the parser returns the parsed tag as a struct; a helper that returns just the name is not it)
 					if rs := callee.Signature.Results(); rs.Len() == 1 {
-						if _, isStruct := rs.At(0).Type().Underlying().(*types.Struct); isStruct {
-							c.roles["role:tag-parser"] = callee
+						if st, isStruct := rs.At(0).Type().Underlying().(*types.Struct); isStruct {
+							// the parser proper records the options as a set; a first-stage helper that only splits the tag does not
+							hasSet := false
+							for k := 0; k < st.NumFields(); k++ {
+								if _, isMap := st.Field(k).Type().Underlying().(*types.Map); isMap {
+									hasSet = true
+								}
+							}
+							if prev := c.roles["role:tag-parser"]; prev == nil || hasSet {
+								c.roles["role:tag-parser"] = callee
+							}
 						}
 					}
 				}
@@ -650,6 +659,12 @@ func ruleAnonTag(c *Ctx, rule string) {
 				consulted = true
 			}
 		})
+		// or a decision in the region looks at a tag that was parsed earlier (once per field)
+		c.eachFam(m.fn, func(j ssa.Instruction) {
+			if jf, ok := j.(*ssa.If); ok && region.Dominates(jf.Block()) && c.dependsOnTag(jf.Cond, 6) {
+				consulted = true
+			}
+		})
 		// or the test itself is already conditional on the tag
 		for _, g := range guardsOf(ifi) {
 			if dependsOnCallNamed(g.Cond, []string{"reflect.StructTag.Lookup", "reflect.StructTag.Get"}, 4) {
@@ -944,7 +959,7 @@ func ruleTagParser(c *Ctx, rule string) {
 	}
 	// option keys: direct elements of strings.Split(rest, ",")
 	n := 0
-	core.EachInstr(tp, func(i ssa.Instruction) {
+	c.eachFam(tp, func(i ssa.Instruction) {
 		mu, ok := i.(*ssa.MapUpdate)
 		if !ok {
 			return
@@ -976,7 +991,11 @@ func ruleTagParser(c *Ctx, rule string) {
 		}
 		// the options are honoured by encoding/json whether or not the name part of the tag is valid
 		var nameGuards []string
-		for _, g := range controlGuards(mu) {
+		gs := controlGuards(mu)
+		if at := liftTo(mu, tp); at != nil && at != ssa.Instruction(mu) {
+			gs = append(gs, controlGuards(at)...)
+		}
+		for _, g := range gs {
 			if pc, ok := g.Cond.(*ssa.Call); ok {
 				if callee := pc.Call.StaticCallee(); callee != nil && c.P.InPkg(callee) && len(callee.Params) == 1 && tString(callee.Params[0].Type()) && isBoolType(pc.Type()) {
 					nameGuards = append(nameGuards, c.pos(g.At))
@@ -988,28 +1007,52 @@ func ruleTagParser(c *Ctx, rule string) {
 		c.R.Check(okKey, rule, fmt.Sprintf("%s:option-key#%d", core.FuncName(tp), n), c.pos(mu), "an option is recorded exactly as the comma-separated element of the tag", "a tag option is transformed (trimmed, lower-cased, ...) before it is recorded: encoding/json compares options literally, so `json:\"x, omitempty\"` does not omit the field but the schema would treat it as optional")
 	})
 	c.R.Floor(rule, "recorded tag options", n, 1)
-	// "-" means omit only without a comma
-	dash := false
-	core.EachInstr(tp, func(i ssa.Instruction) {
-		ifi, ok := i.(*ssa.If)
-		if !ok {
-			return
+	// "-" means omit only without a comma: the parser compares the name with "-" and looks at the `found` result of
+	// the Cut at the comma (in whatever form: nested tests, `name == "-" && !found`)
+	dashCmp, foundUsed := false, false
+	// (all the package functions that look at a struct field's tag for the inference function: a two-stage parser counts as a whole)
+	tagFns := []*ssa.Function{tp}
+	c.eachFam(m.fn, func(i ssa.Instruction) {
+		if call, ok := i.(*ssa.Call); ok {
+			if callee := call.Call.StaticCallee(); callee != nil && c.P.InPkg(callee) && callee != tp && callee.Signature.Params().Len() >= 1 && isNamed(callee.Signature.Params().At(0).Type(), "reflect", "StructField") {
+				tagFns = append(tagFns, callee)
+			}
 		}
-		bo, ok := ifi.Cond.(*ssa.BinOp)
-		if !ok || bo.Op != token.EQL {
-			return
+	})
+	seenI := map[ssa.Instruction]bool{}
+	eachTagInstr := func(f func(i ssa.Instruction)) {
+		for _, tf := range tagFns {
+			c.eachFam(tf, func(i ssa.Instruction) {
+				if !seenI[i] {
+					seenI[i] = true
+					f(i)
+				}
+			})
 		}
-		if s, ok := constString(bo.Y); ok && s == "-" {
-			// the true branch must additionally test the `found` result of Cut (no comma)
-			t := ifi.Block().Succs[0]
-			if i2, ok := t.Instrs[len(t.Instrs)-1].(*ssa.If); ok {
-				if _, isEx := i2.Cond.(*ssa.Extract); isEx {
-					dash = true
+	}
+	eachTagInstr(func(i ssa.Instruction) {
+		switch x := i.(type) {
+		case *ssa.BinOp:
+			if x.Op == token.EQL || x.Op == token.NEQ {
+				for _, o := range []ssa.Value{x.X, x.Y} {
+					if s, ok := constString(o); ok && s == "-" {
+						dashCmp = true
+					}
+				}
+			}
+		case *ssa.Extract:
+			if call, ok := x.Tuple.(*ssa.Call); ok && core.CalleeKey(&call.Call) == "strings.Cut" && x.Index == 2 && x.Referrers() != nil {
+				if sep, ok := constString(call.Call.Args[1]); ok && sep == "," {
+					for _, r := range *x.Referrers() {
+						if _, isDbg := r.(*ssa.DebugRef); !isDbg {
+							foundUsed = true
+						}
+					}
 				}
 			}
 		}
 	})
-	c.R.Check(dash, rule, core.FuncName(tp)+":dash-rule", c.P.Pos(tp.Pos()), "`-` omits the field only when no comma follows (`-,` names the field \"-\")", "the rule for the name \"-\" does not also test that no comma follows: a field tagged `json:\"-,\"` (named \"-\") would be omitted")
+	c.R.Check(dashCmp && foundUsed, rule, core.FuncName(tp)+":dash-rule", c.P.Pos(tp.Pos()), "`-` omits the field only when no comma follows (`-,` names the field \"-\")", "the rule for the name \"-\" does not also look at whether a comma follows: a field tagged `json:\"-,\"` (named \"-\") would be omitted")
 }
 
 // ruleIntegerClassification: integral floats are classified with an exact test (math.Modf), not via an int64 round trip.
